@@ -29,6 +29,7 @@
 From Coq Require Import List NArith ZArith Bool.
 From ApiFu Require Import Base.Sexp Transport.EnvelopeModel Transport.EnvelopeSpec Transport.EnvelopeProofs.
 From ApiFu Require Import Transport.JsonText Transport.JsonTextProofs Transport.EnvelopeCompose.
+From ApiFu Require Import Transport.WireModel Transport.WireProofs.
 From ApiFu Require Api.PersistedQueryModel.
 Import ListNotations.
 
@@ -93,18 +94,14 @@ Section C17.
     (exists id q v n, handle_message parse_jsi p true (Some f) = WsStart id q v n) <-> ws_well_formed parse_jsi (Some f) = true.
   Proof. exact (ws_start_iff_well_formed parse_jsi). Qed.
 
-  (** ** beyond the canonical envelopes: any JSON object read as POST application/json body (no
-      ?query=) and read as start / subscribe payload gives the same operation, as long as no number
-      is outside the float64 range and "query" / "operationName" are not repeated (the two corner
-      cases where encoding/json and jsoniter part ways: [null] after an earlier value, out-of-range
-      numbers in members that are not read) *)
-  Theorem C17_post_body_and_ws_payload_agree : forall text kvs p id o x,
-    parse_std text = PTree (JObj kvs) -> parse_jsi text = PTree (JObj kvs) ->
-    fold_members StdJson kvs = fold_members Jsoniter kvs ->      (* no member name containing U+017F, U+0130 *)
-    has_range (JObj kvs) = false -> single_string_members (fold_members StdJson kvs) = true ->
-    decode fixed parse_std parse_jsi (WHttp {| e_method := m_post; e_media := mt_json; e_url := []; e_body := text |}) = Some (o, x) ->
-    decode fixed parse_std parse_jsi (WWs p {| f_type := start_type p; f_id := id; f_payload := Some text |}) = Some (o, None).
-  Proof. exact (post_body_and_ws_payload_agree parse_std parse_jsi). Qed.
+  (** ** beyond the canonical envelopes: the same text — any bytes — read as POST application/json
+      body (no ?query=) and as start / subscribe payload gives the same operation (both are decoded
+      by encoding/json since the repair; before it the sockets used jsoniter, see
+      [C17_ws_payload_library_refuted_before_fix]) *)
+  Theorem C17_post_body_and_ws_payload_agree : forall text p id o x,
+    decode fixed parse_std parse_std (WHttp {| e_method := m_post; e_media := mt_json; e_url := []; e_body := text |}) = Some (o, x) ->
+    decode fixed parse_std parse_std (WWs p {| f_type := start_type p; f_id := id; f_payload := Some text |}) = Some (o, None).
+  Proof. exact (post_body_and_ws_payload_agree parse_std). Qed.
 
   (** ** the pipeline behind the envelopes: abstract *)
   Variables Schema Features Ctx Doc Resp SchemaDef : Type.
@@ -203,9 +200,9 @@ End C17.
     client serialiser.  What remains trusted of the text layer is the conversion of number tokens:
     [numprint] (the client's formatting of a float64) and [numval] (strconv.ParseFloat), tied by the
     four hypotheses below.  [tclean fl numclean j]: the numbers of [j] are [numclean], and (for
-    encoding/json, which rewrites invalid UTF-8) its strings and member names are ASCII.
-    PARTIAL: strings beyond ASCII on the HTTP transports are covered by the tree-level theorems above
-    (hypothesis [std_faithful]) but not yet by the byte-level ones. *)
+    encoding/json, which rewrites bytes that are not UTF-8) its strings and member names are valid
+    UTF-8 ([utf8_ok]: exactly the sequences utf8.DecodeRune accepts).  Since the third repair every
+    transport reads JSON with encoding/json. *)
 Section C17Bytes.
   Variable numval : bytes -> option N.
   Variable numprint : N -> bytes.
@@ -224,11 +221,11 @@ Section C17Bytes.
       canonical envelope *)
   Theorem C17_envelope_roundtrip_bytes : forall t id o,
     wf_op o = true -> carries t o = true -> (forall j, In j (sent_json t o) -> text_clean numclean j) ->
-    decode fixed (parse_text StdJson numval) (parse_text Jsoniter numval) (encode (print numprint) t id o) = Some (o, None).
+    decode fixed (parse_text StdJson numval) (parse_text StdJson numval) (encode (print numprint) t id o) = Some (o, None).
   Proof.
-    exact (C17_envelope_roundtrip (print numprint) (parse_text StdJson numval) (parse_text Jsoniter numval) (text_clean numclean)
+    exact (C17_envelope_roundtrip (print numprint) (parse_text StdJson numval) (parse_text StdJson numval) (text_clean numclean)
              (std_faithful_bytes numval numprint numclean num_nonempty num_chars num_grammar num_back)
-             (jsi_faithful_bytes numval numprint numclean num_nonempty num_chars num_grammar num_back)
+             (std_faithful_bytes numval numprint numclean num_nonempty num_chars num_grammar num_back)
              (render_nonempty_bytes_clean numprint numclean num_nonempty num_chars)).
   Qed.
 
@@ -245,7 +242,7 @@ Section C17Bytes.
            (sha : bytes -> bytes) (not_found : Resp) (st : PersistedQueryModel.storage),
     let pq := pq_of Resp (event Features Ctx Doc) sha not_found st in
     let resp := respond no_features parse_validate is_subscription execute run_subscription pq marshal fixed
-                        (parse_text StdJson numval) (parse_text Jsoniter numval) (print numprint) in
+                        (parse_text StdJson numval) (parse_text StdJson numval) (print numprint) in
     forall t1 t2 (a : api Schema Features Ctx) c id1 id2 o,
     wf_op o = true -> carries t1 o = true -> carries t2 o = true ->
     (forall j, In j (sent_json t1 o) \/ In j (sent_json t2 o) -> text_clean numclean j) ->
@@ -255,9 +252,52 @@ Section C17Bytes.
     resp t1 a c id1 o = resp t2 a c id2 o /\ exists body, fst (resp t1 a c id1 o) = Some [body].
   Proof.
     exact (fun Schema Features Ctx Doc Resp no_features parse_validate is_subscription execute run_subscription marshal sha not_found st =>
-             C17_transport_same_response (print numprint) (parse_text StdJson numval) (parse_text Jsoniter numval) (text_clean numclean)
+             C17_transport_same_response (print numprint) (parse_text StdJson numval) (parse_text StdJson numval) (text_clean numclean)
                (std_faithful_bytes numval numprint numclean num_nonempty num_chars num_grammar num_back)
-               (jsi_faithful_bytes numval numprint numclean num_nonempty num_chars num_grammar num_back)
+               (std_faithful_bytes numval numprint numclean num_nonempty num_chars num_grammar num_back)
+               (render_nonempty_bytes_clean numprint numclean num_nonempty num_chars)
+               Schema Features Ctx Doc Resp no_features parse_validate is_subscription execute run_subscription
+               (pq_of Resp (event Features Ctx Doc) sha not_found st) marshal
+               (pq_of_no_ext Resp (event Features Ctx Doc) sha not_found st)).
+  Qed.
+  (** ** the response side: the answer on the wire (Transport/WireModel.v).
+      [wire_respond t a c id o]: what the client that submits [o] over [t] receives — HTTP: status,
+      Content-Type, body ([http_frame]); a socket: the text frames sent for operation [id]
+      ([ws_frame]: id, type data / next / complete, payload).  [frame_answer t id ps] is the
+      transport's framing of the marshalled responses [ps].  Every GraphQL-level outcome (syntax /
+      validation error, cost limit, execution error, PersistedQueryNotFound) is a response value:
+      HTTP answers 200 application/json with it, a socket sends it in a data / next frame followed by
+      complete; only a malformed envelope (4xx, text/plain) and a response that does not marshal (500 /
+      no data frame) are framed differently.
+      transport_same_response, strengthened: the two wire answers are the two framings of ONE response
+      body, and the pipeline saw the same calls *)
+  Theorem C17_transport_same_wire_answer :
+    forall (Schema Features Ctx Doc Resp : Type) (no_features : Features)
+           (parse_validate : Schema -> Features -> Z * Z -> bytes -> bytes -> option gomap -> pv_result Doc Resp)
+           (is_subscription : Doc -> bytes -> bool)
+           (execute : bool -> Schema -> exec_request Features Doc -> Z -> Resp)
+           (run_subscription : bool -> Schema -> exec_request Features Doc -> Z -> list Resp)
+           (marshal : Resp -> option bytes)
+           (sha : bytes -> bytes) (not_found : Resp) (st : PersistedQueryModel.storage),
+    let pq := pq_of Resp (event Features Ctx Doc) sha not_found st in
+    let resp := respond no_features parse_validate is_subscription execute run_subscription pq marshal fixed
+                        (parse_text StdJson numval) (parse_text StdJson numval) (print numprint) in
+    let wire := wire_respond no_features parse_validate is_subscription execute run_subscription pq marshal fixed
+                        (parse_text StdJson numval) (parse_text StdJson numval) (print numprint) in
+    forall t1 t2 (a : api Schema Features Ctx) c id1 id2 o,
+    wf_op o = true -> carries t1 o = true -> carries t2 o = true ->
+    (forall j, In j (sent_json t1 o) \/ In j (sent_json t2 o) -> text_clean numclean j) ->
+    (forall d cost, parse_validate (a_schema a) (features_of no_features a c) (a_default_cost a) (o_query o) (o_opname o) (o_vars o) = PVOk d cost ->
+                    is_subscription d (o_opname o) = false) ->
+    (forall r tr, validate_execute parse_validate execute a (features_of no_features a c) (request_of o) = (r, tr) -> marshal r <> None) ->
+    exists body,
+      wire t1 a c id1 o = frame_answer t1 id1 [body] /\ wire t2 a c id2 o = frame_answer t2 id2 [body] /\
+      snd (resp t1 a c id1 o) = snd (resp t2 a c id2 o).
+  Proof.
+    exact (fun Schema Features Ctx Doc Resp no_features parse_validate is_subscription execute run_subscription marshal sha not_found st =>
+             transport_same_wire_answer (print numprint) (parse_text StdJson numval) (parse_text StdJson numval) (text_clean numclean)
+               (std_faithful_bytes numval numprint numclean num_nonempty num_chars num_grammar num_back)
+               (std_faithful_bytes numval numprint numclean num_nonempty num_chars num_grammar num_back)
                (render_nonempty_bytes_clean numprint numclean num_nonempty num_chars)
                Schema Features Ctx Doc Resp no_features parse_validate is_subscription execute run_subscription
                (pq_of Resp (event Features Ctx Doc) sha not_found st) marshal
@@ -265,20 +305,43 @@ Section C17Bytes.
   Qed.
 End C17Bytes.
 
-(** the same bytes, read as different operations by the two libraries (observations on the real
-    code, see checks/C17.design.md): a member named "variable" + U+017F is [variables] for encoding/json
-    only; a lone surrogate escape followed by an escaped pair loses the pair on the sockets *)
-Theorem C17_same_text_other_operation :
-  (exists text o1 o2 x id, 
-     decode fixed (parse_text StdJson (fun _ => None)) (parse_text Jsoniter (fun _ => None))
-            (WHttp {| e_method := m_post; e_media := mt_json; e_url := []; e_body := text |}) = Some (o1, x) /\
-     decode fixed (parse_text StdJson (fun _ => None)) (parse_text Jsoniter (fun _ => None))
-            (WWs GraphqlWS {| f_type := t_start; f_id := id; f_payload := Some text |}) = Some (o2, None) /\
-     o_vars o1 <> o_vars o2) /\
-  (exists text s1 s2,
-     parse_text StdJson (fun _ => None) text = PTree (JStr s1) /\
-     parse_text Jsoniter (fun _ => None) text = PTree (JStr s2) /\ s1 <> s2).
-Proof. exact same_text_other_operation. Qed.
+(** the framing functions are injective on response bytes: answers that are equal on the wire carry
+    the same response(s); so "same wire answer modulo framing" determines the response *)
+Theorem C17_framing_injective :
+  (forall t id b b', http_transport t = true -> frame_answer t id [b] = frame_answer t id [b'] -> b = b') /\
+  (forall t id ps ps', http_transport t = false -> frame_answer t id ps = frame_answer t id ps' -> ps = ps') /\
+  (forall p id x y, ws_frame p (WsData id x) = ws_frame p (WsData id y) -> x = y).
+Proof. exact (conj frame_answer_inj_http (conj frame_answer_inj_ws ws_frame_data_inj)). Qed.
+
+(** whenever a client is answered with payloads [ps], the bytes it receives are the framing of [ps]:
+    for every API, transport, operation — including subscriptions (several data frames) and error
+    responses *)
+Theorem C17_wire_is_framing_of_response :
+  forall (Schema Features Ctx Doc Resp : Type) (no_features : Features)
+         (parse_validate : Schema -> Features -> Z * Z -> bytes -> bytes -> option gomap -> pv_result Doc Resp)
+         (is_subscription : Doc -> bytes -> bool)
+         (execute : bool -> Schema -> exec_request Features Doc -> Z -> Resp)
+         (run_subscription : bool -> Schema -> exec_request Features Doc -> Z -> list Resp)
+         (pq_ext : (request -> Resp * list (event Features Ctx Doc)) -> request -> Resp * list (event Features Ctx Doc))
+         (marshal : Resp -> option bytes) (qk : quirks) (parse_std parse_jsi : bytes -> jparse) (render : json -> bytes)
+         t (a : api Schema Features Ctx) c id o ps,
+    fst (respond no_features parse_validate is_subscription execute run_subscription pq_ext marshal qk parse_std parse_jsi render t a c id o) = Some ps ->
+    wire_respond no_features parse_validate is_subscription execute run_subscription pq_ext marshal qk parse_std parse_jsi render t a c id o
+    = frame_answer t id ps.
+Proof. exact wire_of_respond. Qed.
+
+(** a malformed HTTP envelope on the wire: a 4xx status, Content-Type text/plain, no call *)
+Theorem C17_malformed_http_wire :
+  forall (parse_std : bytes -> jparse) (Schema Features Ctx Doc Resp : Type) (no_features : Features)
+         (parse_validate : Schema -> Features -> Z * Z -> bytes -> bytes -> option gomap -> pv_result Doc Resp)
+         (execute : bool -> Schema -> exec_request Features Doc -> Z -> Resp)
+         (pq_ext : (request -> Resp * list (event Features Ctx Doc)) -> request -> Resp * list (event Features Ctx Doc))
+         (marshal : Resp -> option bytes) (a : api Schema Features Ctx) c e,
+    http_well_formed parse_std e = false ->
+    exists code, http_frame (fst (serve_graphql no_features parse_validate execute pq_ext marshal fixed parse_std a c e)) =
+                 {| hw_status := code; hw_ctype := ct_text; hw_body := None |} /\ (400 <= code < 500)%Z /\
+                 snd (serve_graphql no_features parse_validate execute pq_ext marshal fixed parse_std a c e) = [].
+Proof. exact malformed_http_wire. Qed.
 
 (** ** the two repaired defects, kept as witnesses against the pinned code *)
 
@@ -297,6 +360,18 @@ Theorem C17_trailing_bytes_refuted_before_fix :
   (exists r, new_request_from_http pinned toy_parse e = Accept r) /\
   new_request_from_http fixed toy_parse e = Reject 400.
 Proof. exact trailing_bytes_refuted_before_fix. Qed.
+
+(** the third repaired defect: socket payloads were decoded by jsoniter, HTTP bodies by encoding/json;
+    the same bytes gave different variables (a member named "variable" + U+017F), a different query
+    (a repeated member ending in null) or a different string (an unpaired surrogate escape followed by
+    an escaped pair) depending on the transport *)
+Theorem C17_ws_payload_library_refuted_before_fix :
+  (exists text o1 o2, payload_op StdJson text = Some o1 /\ payload_op Jsoniter text = Some o2 /\ o_vars o1 <> o_vars o2) /\
+  (exists text o1 o2, payload_op StdJson text = Some o1 /\ payload_op Jsoniter text = Some o2 /\ o_query o1 <> o_query o2) /\
+  (exists text s1 s2,
+     parse_text StdJson (fun _ => None) text = PTree (JStr s1) /\
+     parse_text Jsoniter (fun _ => None) text = PTree (JStr s2) /\ s1 <> s2).
+Proof. exact ws_payload_library_refuted_before_fix. Qed.
 
 Print Assumptions C17_envelope_roundtrip_get.
 Print Assumptions C17_envelope_roundtrip_post_json.
@@ -317,6 +392,10 @@ Print Assumptions C17_clone_same_response.
 Print Assumptions C17_json_text_roundtrip.
 Print Assumptions C17_envelope_roundtrip_bytes.
 Print Assumptions C17_transport_same_response_bytes.
-Print Assumptions C17_same_text_other_operation.
+Print Assumptions C17_transport_same_wire_answer.
+Print Assumptions C17_framing_injective.
+Print Assumptions C17_wire_is_framing_of_response.
+Print Assumptions C17_malformed_http_wire.
+Print Assumptions C17_ws_payload_library_refuted_before_fix.
 Print Assumptions C17_post_url_query_refuted_before_fix.
 Print Assumptions C17_trailing_bytes_refuted_before_fix.
